@@ -427,6 +427,9 @@ def run(ctx):
                 seen.add(x.id)
                 d = single_def(co, x.id)
                 if d is None:
+                    alld = [n_.value for n_ in co.own_nodes() if isinstance(n_, ast.Assign) and len(n_.targets) == 1 and isinstance(n_.targets[0], ast.Name) and n_.targets[0].id == x.id]
+                    d = alld[0] if alld else None  # several assignments: R7 reports the overwrite, R6 judges the first
+                if d is None:
                     continue
                 if any(isinstance(y, ast.Attribute) and y.attr == "exponents" for y in ast.walk(d)):
                     nbound += 1
@@ -438,3 +441,49 @@ def run(ctx):
                 else:
                     work.extend(y for y in ast.walk(d) if isinstance(y, ast.Name))
     ctx.floor("R6", nbound, 2, "exponent reductions feeding the shell-pair bound")
+
+    # ------------------------------------------------------------------ R7
+    ctx.rule("R7", "every shell-pair block is computed unless the screening bound is below the threshold", "an added shortcut (parity, same-centre, selection rule) zeroes a block that is not zero")
+    shell_loops = [n for n in co.own_nodes() if isinstance(n, ast.For) and any(isinstance(x, ast.Attribute) and x.attr == "shells" for x in ast.walk(n.iter))]
+    if len(shell_loops) != 2:
+        ctx.violate("R7", f"expected the two nested shell loops in compute_overlap, found {len(shell_loops)}", co, co.node, construct="shell loops")
+    else:
+        outer, inner_l = sorted(shell_loops, key=lambda l: l.lineno)
+        stores = [n for n in ast.walk(inner_l) if isinstance(n, (ast.Assign, ast.AugAssign)) and any(isinstance(t, ast.Subscript) and isinstance(t.value, ast.Name) and t.value.id == "overlap" for t in (n.targets if isinstance(n, ast.Assign) else [n.target]))]
+        # 1. no continue / break that leaves a shell iteration
+        nskip = 0
+        for n in ast.walk(outer):
+            if isinstance(n, (ast.Continue, ast.Break)):
+                cur = n
+                while id(cur) in pmc and not isinstance(pmc[id(cur)], (ast.For, ast.While)):
+                    cur = pmc[id(cur)]
+                lp = pmc.get(id(cur))
+                if lp is outer or lp is inner_l:
+                    nskip += 1
+                    ctx.violate("R7", f"`{type(n).__name__.lower()}` leaves an iteration of the shell-pair loop: the block of that pair stays zero", co, n)
+        # 2. the conditions guarding the block store are screening tests only
+        for stn in stores:
+            cur = stn
+            while id(cur) in pmc and pmc[id(cur)] is not inner_l:
+                par = pmc[id(cur)]
+                if isinstance(par, ast.If):
+                    t = par.test
+                    is_screen = isinstance(t, ast.Compare) and len(t.ops) == 1 and any(isinstance(e, ast.Constant) and isinstance(e.value, float) and 0 < e.value <= 1e-15 for e in [t.left] + t.comparators)
+                    is_ident = isinstance(t, ast.Name) or (isinstance(t, ast.BoolOp) and all(isinstance(v, (ast.Name, ast.Compare)) for v in t.values) and any(isinstance(v, ast.Name) and v.id == "identical" for v in t.values))
+                    if is_screen or (is_ident and "identical" in src_of(t)):
+                        pass
+                    else:
+                        ctx.violate("R7", f"a shell-pair block is stored only when `{src_of(t)[:70]}`: that is neither the screening test nor the one-basis symmetry test", co, par.test)
+                        nskip += 1
+                cur = par
+        # 3. the shell-level screening quantity is assigned once before its test
+        for n in inner_l.body:
+            if isinstance(n, ast.If) and isinstance(n.test, ast.Compare) and any(isinstance(e, ast.Constant) and isinstance(e.value, float) and 0 < e.value <= 1e-15 for e in [n.test.left] + n.test.comparators):
+                for nm in sorted({x.id for x in ast.walk(n.test) if isinstance(x, ast.Name)}):
+                    defs = [d_ for b_ in inner_l.body if b_.lineno < n.lineno for d_ in ast.walk(b_) if isinstance(d_, (ast.Assign, ast.AugAssign)) and any(isinstance(t, ast.Name) and t.id == nm for t in (d_.targets if isinstance(d_, ast.Assign) else [d_.target]))]
+                    if len(defs) > 1:
+                        nskip += 1
+                        ctx.violate("R7", f"the screening quantity `{nm}` is assigned {len(defs)} times before its test: a conditional overwrite (`{src_of(defs[-1])[:50]}`) switches blocks off outside the documented screening", co, defs[-1])
+        if not nskip:
+            ctx.ok("R7", f"{len(stores)} block store(s): guarded only by the screening comparison / the one-basis symmetry flag; no continue/break at shell level; screening quantities assigned once", f"{om.relpath}:{inner_l.lineno}")
+        ctx.floor("R7", len(stores), 1, "block stores")
